@@ -151,7 +151,7 @@ def check_raises(ctx, clause="D-d"):
         for n in walk_own(f.node):
             if not isinstance(n, ast.Raise):
                 continue
-            key = "R-RAISE|%s|%s" % (f.short, norm(n)[:60])
+            key = "R-RAISE|%s|%s" % (f.short, f.key(n)[:60])
             ok, why = _raise_discharged(ctx, f, n)
             obs.append(Ob(clause, "R-RAISE", key, f.loc(n), ok,
                           why if ok else "raise reachable after the input was accepted: %s in %s (%s)" % (
